@@ -146,6 +146,8 @@ func c13EqualFormatFirst(ctx *core.Ctx, r *core.Report) {
 	c13WhenContext(ctx, r)
 	c13WriteHasValue(ctx, r)
 	c13KeyValidEveryElement(ctx, r)
+	c13RowNumbersNonNegative(ctx, r)
+	c13SourceChooseCannotFail(ctx, r)
 	c13LiteralScanStopsAtEnd(ctx, r)
 	c13HandlersKnowTheirNode(ctx, r)
 	c13ProbeHasNoSelection(ctx, r)
